@@ -21,7 +21,10 @@ func linzScenario(c *sup.Ctx, r *rng.R, props []string) {
 	handles := 1 + r.Intn(3)
 	clients := 3 + r.Intn(6)
 	keys := []string{"d0", "d1", "d2"}[:1+r.Intn(3)]
-	w := conc.Workload{Clients: clients, OpsEach: 10 + r.Intn(10), DocKeys: keys, CtrKeys: []string{"ctr"}, Weights: linzWeights}
+	w := conc.Workload{Clients: clients, OpsEach: 10 + r.Intn(10), DocKeys: keys, CtrKeys: []string{"ctr"}, Weights: linzWeights, Twins: len(keys) >= 2 && c.Local%3 == 2}
+	if w.Twins {
+		c.Count("histories_starting_with_two_documents_sharing_a_cas", 1)
+	}
 	b, err := conc.OpenBucket(c.Tmp, disk, handles)
 	if err != nil {
 		c.Incon("cannot open bucket: " + err.Error())
